@@ -272,6 +272,19 @@ def run_item(ctx, item):
         # parts need not have distinct ids (the first parts of two separately loaded files are both "P1")
         parts[rng.randrange(1, len(parts))].id = parts[0].id
         ctx.extra["merges_with_a_later_part_named_like_the_first"] += 1
+    if rng.random() < 0.25:
+        # a percussion line: some notes of a part are unpitched (they have a voice and a staff like any other note)
+        p_ = parts[rng.randrange(len(parts))]
+        plain_ = [n_ for n_ in timemaps.objects_of(p_, S.Note, exact=True) if n_.tie_next is None and n_.tie_prev is None
+                  and not getattr(n_, "slur_starts", None) and not getattr(n_, "slur_stops", None)
+                  and not getattr(n_, "tuplet_starts", None) and not getattr(n_, "tuplet_stops", None)]
+        for n_ in rng.sample(plain_, min(len(plain_), rng.randint(1, 4))):
+            a_, b_ = int(n_.start.t), int(n_.end.t)
+            u_ = S.UnpitchedNote(step=n_.step, octave=n_.octave, id=n_.id, voice=n_.voice, staff=n_.staff,
+                                 symbolic_duration=dict(n_.symbolic_duration) if n_.symbolic_duration else None)
+            p_.remove(n_)
+            p_.add(u_, a_, b_)
+        ctx.extra["merges_with_unpitched_notes"] += 1
     if rng.random() < 0.2:
         # a part without any note or rest that still has something to say (chord symbols, cues, an analysis layer)
         q_ = rng.choice(cands)
